@@ -153,9 +153,17 @@ pub enum PendingCompletion {
     /// Rethrow this exception after finally completes
     Throw(Guarded),
     /// Break to target after finally completes
-    Break { target: usize, try_depth: u8 },
+    Break {
+        target: usize,
+        try_depth: u8,
+        scope_depth: u16,
+    },
     /// Continue to target after finally completes
-    Continue { target: usize, try_depth: u8 },
+    Continue {
+        target: usize,
+        try_depth: u8,
+        scope_depth: u16,
+    },
 }
 
 /// A saved trampoline frame for suspension (Clone-able version without Guard)
@@ -2458,10 +2466,18 @@ impl BytecodeVM {
             }
 
             // NOTE: review
-            Op::Break { target, try_depth } => self.execute_break(target as usize, try_depth),
+            Op::Break {
+                target,
+                try_depth,
+                scope_depth,
+            } => self.execute_break(interp, target as usize, try_depth, scope_depth),
 
             // NOTE: review
-            Op::Continue { target, try_depth } => self.execute_continue(target as usize, try_depth),
+            Op::Continue {
+                target,
+                try_depth,
+                scope_depth,
+            } => self.execute_continue(interp, target as usize, try_depth, scope_depth),
 
             // ═══════════════════════════════════════════════════════════════════════════
             // Variable Access
@@ -3240,13 +3256,21 @@ impl BytecodeVM {
                             // Re-throw the exception after finally
                             return Err(JsError::ThrownValue { guarded });
                         }
-                        PendingCompletion::Break { target, try_depth } => {
+                        PendingCompletion::Break {
+                            target,
+                            try_depth,
+                            scope_depth,
+                        } => {
                             // Continue with the break (recursively handles nested finally blocks)
-                            return self.execute_break(target, try_depth);
+                            return self.execute_break(interp, target, try_depth, scope_depth);
                         }
-                        PendingCompletion::Continue { target, try_depth } => {
+                        PendingCompletion::Continue {
+                            target,
+                            try_depth,
+                            scope_depth,
+                        } => {
                             // Continue with the continue (recursively handles nested finally blocks)
-                            return self.execute_continue(target, try_depth);
+                            return self.execute_continue(interp, target, try_depth, scope_depth);
                         }
                     }
                 }
@@ -6005,7 +6029,13 @@ impl BytecodeVM {
 
     /// Execute a break, running any pending finally blocks first
     // NOTE: review
-    fn execute_break(&mut self, target: usize, try_depth: u8) -> Result<OpResult, JsError> {
+    fn execute_break(
+        &mut self,
+        interp: &mut Interpreter,
+        target: usize,
+        try_depth: u8,
+        scope_depth: u16,
+    ) -> Result<OpResult, JsError> {
         // Check if there's a try handler with a finally block between us and the target
         let target_try_depth = try_depth as usize;
 
@@ -6026,10 +6056,18 @@ impl BytecodeVM {
                 .ok_or_else(|| JsError::internal_error("Missing try handler"))?;
 
             // Save the pending break
-            self.pending_completion = Some(PendingCompletion::Break { target, try_depth });
+            self.pending_completion = Some(PendingCompletion::Break {
+                target,
+                try_depth,
+                scope_depth,
+            });
 
             // Pop the try handler (we're exiting this try block)
             self.try_stack.truncate(handler_idx);
+
+            // Leave the block scopes entered inside the try statement: its finally block
+            // runs in the scope the try statement itself is in
+            self.unwind_scopes_to(interp, handler.scope_depth);
 
             // Jump to the finally block
             self.ip = handler.finally_ip;
@@ -6040,13 +6078,30 @@ impl BytecodeVM {
         // No finally block, do normal break (just jump)
         // Also pop try handlers down to the target level
         self.try_stack.truncate(target_try_depth);
+        // ... and leave the block scopes that were entered between the target and here
+        self.unwind_scopes_to(interp, scope_depth as usize);
         self.ip = target;
         Ok(OpResult::Continue)
     }
 
+    /// Pop block scopes until only `depth` of them remain open in the current frame
+    fn unwind_scopes_to(&mut self, interp: &mut Interpreter, depth: usize) {
+        while self.saved_env_stack.len() > depth {
+            if let Some(saved_env) = self.saved_env_stack.pop() {
+                interp.pop_scope(saved_env);
+            }
+        }
+    }
+
     /// Execute a continue, running any pending finally blocks first
     // NOTE: review
-    fn execute_continue(&mut self, target: usize, try_depth: u8) -> Result<OpResult, JsError> {
+    fn execute_continue(
+        &mut self,
+        interp: &mut Interpreter,
+        target: usize,
+        try_depth: u8,
+        scope_depth: u16,
+    ) -> Result<OpResult, JsError> {
         // Check if there's a try handler with a finally block between us and the target
         let target_try_depth = try_depth as usize;
 
@@ -6067,10 +6122,17 @@ impl BytecodeVM {
                 .ok_or_else(|| JsError::internal_error("Missing try handler"))?;
 
             // Save the pending continue
-            self.pending_completion = Some(PendingCompletion::Continue { target, try_depth });
+            self.pending_completion = Some(PendingCompletion::Continue {
+                target,
+                try_depth,
+                scope_depth,
+            });
 
             // Pop the try handler (we're exiting this try block)
             self.try_stack.truncate(handler_idx);
+
+            // Leave the block scopes entered inside the try statement
+            self.unwind_scopes_to(interp, handler.scope_depth);
 
             // Jump to the finally block
             self.ip = handler.finally_ip;
@@ -6081,6 +6143,8 @@ impl BytecodeVM {
         // No finally block, do normal continue (just jump)
         // Also pop try handlers down to the target level
         self.try_stack.truncate(target_try_depth);
+        // ... and leave the block scopes that were entered between the target and here
+        self.unwind_scopes_to(interp, scope_depth as usize);
         self.ip = target;
         Ok(OpResult::Continue)
     }
